@@ -377,15 +377,15 @@ fn configs(prop: &str, thorough: bool) -> Vec<(Cfg, Option<usize>)> {
 fn describe(prop: &str) -> (&'static str, &'static str) {
     match prop {
         "C11" => (
-            "user Transfer (native, with funds) and cw20 Send{TransferMsg} of 1-2 (thorough 1-3) tokens by A and B on either of two channels while < 2 (3) packets are in flight; incoming packets on either channel with denom in {proper voucher of this channel for the sent token / a never-sent token / cw20:<garbage> / cw20:<non-contract>, voucher prefix of the OTHER channel, other port, un-prefixed foreign denom, our own port/channel prefix, doubled prefix, two-part denom}, amount in {1,2,3,2^64}, receiver in {valid user(s), invalid address}, raw non-ICS20 bytes; for every packet in flight Ack(success) | Ack(error) | Ack(garbage) | Timeout in any order; payout / refund sub-call made to fail (recipient or token rejects; every gas-limited sub-call runs out of gas), at most 1 (thorough 2) faults per history",
+            "user Transfer (native, with funds) and cw20 Send{TransferMsg} of 1-2 (thorough 1-3) tokens by A and B on either of two channels while < 2 (3) packets are in flight, with plain channel ids (channel-1/2, counterparty ends channel-71/72) and with CROSSED ids (local channel-5 <-> remote channel-15, local channel-15 <-> remote channel-5); incoming packets on either channel with denom in {proper voucher of this channel for the sent token / a never-sent token / cw20:<garbage> / cw20:<non-contract>, voucher prefix of the OTHER channel, other port, un-prefixed foreign denom, our own port/channel prefix, doubled prefix, two-part denom}, amount in {1,2,3,2^64}, receiver in {valid user(s), invalid address}, raw non-ICS20 bytes; for every packet in flight Ack(success) | Ack(error) | Ack(garbage) | Timeout in any order; payout / refund sub-call made to fail (recipient or token rejects; every gas-limited sub-call runs out of gas), at most 1 (thorough 2) faults per history",
             "after every step, for every token: real holdings of the ics20 contract (kernel bank / cw20 Balance) >= sum over channels of Channel{id}.balances; monitor per (channel, denom): credit = escrowed by accepted transfers - really paid out (redemptions + refunds, measured as falls of the contract's real balance in steps on that channel) >= 0; a packet whose denom is not a proper voucher of this channel for a local token, or whose amount exceeds the channel balance reported before the step, or that is not ICS-20 data moves no bank or cw20 balance at all; holdings never move in governance / migrate steps",
         ),
         "C12" => (
-            "the C11 alphabet over the governance configurations {no allow list & no default, T1 listed with limit, T1 listed + T2 admitted by the default limit, unlisted token allowed later by governance, (thorough) unlimited, native+cw20}; storages built byte-wise in the 0.11.1 and 0.12.0-alpha1 layout (v1 ics20_config = {default_timeout, gov_contract}, no admin item, no allow list, cw20 T1 outstanding and escrowed) and in the 0.13.0 layout (sends in flight escrowed but not yet counted), each followed by Migrate{None | Some(2)} and then transfers, packets, acks, timeouts, Allow by governance; same-version Migrate{None|Some} at every reachable state; transfers with requested / default timeout, memo set / unset / empty at two block times; amounts 1, 2^64-1, 2^64 for native and cw20",
+            "the C11 alphabet over the governance configurations {no allow list & no default, T1 listed with limit, T1 listed + T2 admitted by the default limit, unlisted token allowed later by governance, (thorough) unlimited, native+cw20}; storages built byte-wise in the 0.11.1 and 0.12.0-alpha1 layout (v1 ics20_config = {default_timeout, gov_contract}, no admin item, no allow list, cw20 T1 outstanding and escrowed, one more T1 send still in flight and not yet counted) and in the 0.13.0 layout (sends in flight escrowed but not yet counted), each followed by Migrate{None | Some(2)} and then transfers, packets, acks, timeouts, Allow by governance; same-version Migrate{None|Some} at every reachable state; transfers with requested / default timeout, memo set / unset / empty at two block times; amounts 1, 2^64-1, 2^64 for native and cw20",
             "reference per (channel, denom): outstanding = accepted sends - sends whose error-ack/timeout was processed - amounts of incoming packets answered with a success ack, compared with Channel{id}.balances after every step; total_sent never falls; per incoming packet: ibc_packet_receive never returns Err/panics; success ack => receiver's real balance rose by exactly the amount and the channel balance fell by it; error ack => ALL Channel queries, all bank and cw20 balances, Config, Admin, ListAllowed, Allowed and the packets in flight equal the pre-state; per accepted transfer: exactly one committed IbcMsg::SendPacket, by the ics20 contract, on the requested channel, data == {amount (<= 2^64-1), denom (native name | cw20:<token>), receiver, sender = paying user, memo iff requested}, timeout timestamp == block time + (requested | default) seconds, contract holdings rose and payer's balance fell by the amount; migrations leave balances alone and arrive at outstanding == escrow",
         ),
         "C18" => (
-            "initial allow lists [] | [T1:unlimited] | [T1:1] x default gas limit None | 2; Allow{T1|T2, None|1|2|3} and UpdateAdmin{G|G2} by governance G, the later/former governance G2 and a stranger X; Migrate{None|1|3} at every state; cw20 transfers of T1 and T2 and native transfers; incoming packets redeeming them; error acks and timeouts that trigger refunds",
+            "initial allow lists [] | [T1:unlimited] | [T1:1] x default gas limit None | 2; Allow{T1|T2, None|0|1|3} (0 is a genuine limit) and UpdateAdmin{G|G2} by governance G, the later/former governance G2 and a stranger X; Migrate{None|0|3} at every state; cw20 transfers of T1 and T2 and native transfers; incoming packets redeeming them; error acks and timeouts that trigger refunds",
             "reference {gov, allow: token -> limit, default} == Admin, Config.gov_contract, Config.default_gas_limit, fully paged ListAllowed, Allowed{T1}, Allowed{T2} after every step; Allow / UpdateAdmin accepted only from the reference governance; admin, allow list and default change in no other step (migrate may set, never unset, the default); a listed token never disappears, its limit never falls, unlimited stays unlimited (checked against the reference and, independently, pre vs. post listing); a cw20 transfer is accepted only if the token is listed or a default exists; every payout / refund sub-message dispatched by the contract carries gas_limit == allow[token] if listed (None if unlimited) else the default, native payouts carry none",
         ),
         _ => ("", ""),
